@@ -1637,6 +1637,9 @@ class Interp(object):
                 raise PyRaise(ExcVal('IndexError', ("assignment index out of range",), {'IndexError', 'LookupError', 'Exception', 'BaseException'}))
             if isinstance(idx, z3.ArithRef):
                 return self.lib.store_concrete_list(self, obj, idx, v)
+            if isinstance(idx, slice) and all(x is None or isinstance(x, int) for x in (idx.start, idx.stop, idx.step)) and isinstance(v, (list, tuple)):
+                obj[idx] = list(v)          # concrete slice assignment on a concrete list
+                return
             raise Unsupported("list setitem with %r" % (idx,))
         if isinstance(obj, dict):
             if is_z3(idx):
